@@ -1,5 +1,5 @@
 (* Proofs about the trivia index model (Model/Trivia.v). *)
-From Coq Require Import List NArith Bool Arith Lia Permutation.
+From Coq Require Import List NArith Bool Arith Lia Permutation Sorted.
 From PV Require Import Model.Trivia.
 Import ListNotations.
 Open Scope N_scope.
@@ -760,4 +760,1017 @@ Lemma NoDup_app_disj {A} (a b : list A) x : NoDup (a ++ b) -> In x a -> In x b -
 Proof.
   induction a as [|y r IH]; intros H Ha Hb; [contradiction|]. inversion H; subst.
   destruct Ha as [->|Ha]; [apply H2; apply in_or_app; now right|now apply IH].
+Qed.
+
+(* ---- what each walker function establishes ---- *)
+Definition is_nil {A} (l : list A) : bool := match l with [] => true | _ => false end.
+
+Definition S_scope (f : nat) : Prop :=
+  forall cf scope mode Pd rest cv slots bbs starts hb ix ix' l0,
+  walk_scope f cf scope mode Pd rest cv slots bbs starts hb ix = Some ix' ->
+  NoDup (all_ids rest) -> ~ In 0 (all_ids rest) -> ~ In scope (all_ids rest) ->
+  (cv = true -> fix_cv cf = true) ->
+  guard cf rest ->
+  (slots = [] -> scope <> 0 -> alookup scope (i_att ix) = Some (mkAtt l0 [])) ->
+  exists SLn STn,
+    d_slots (get_det scope ix') = slots ++ SLn /\ d_starts (get_det scope ix') = starts ++ STn
+    /\ length SLn = S (length STn)
+    /\ (forall s, In s STn -> In s (all_ids rest))
+    /\ (forall k, ~ In k (all_ids rest) -> k <> scope -> same_at ix ix' k)
+    /\ (slots <> [] -> alookup scope (i_att ix') = alookup scope (i_att ix))
+    /\ (slots = [] -> scope <> 0 -> exists X, alookup scope (i_att ix') = Some (mkAtt l0 X))
+    /\ forall ixF, agree (all_ids rest) ix' ixF ->
+         (slots = [] -> scope <> 0 -> alookup scope (i_att ix') = alookup scope (i_att ixF)) ->
+         covered ixF rest
+         /\ (if is_nil slots && negb (scope =? 0) then pieces (trail ixF scope) else [])
+            ++ E_seq (E_tok ixF) rest SLn STn = pieces Pd ++ flatten rest.
+
+Definition S_decl (f : nat) : Prop :=
+  forall cf mode first t rest Pd sa endId ix res l0,
+  decl_loop f cf mode first t rest Pd sa endId ix = Some res ->
+  skippable t = false ->
+  NoDup (all_ids (t :: rest)) -> ~ In 0 (all_ids (t :: rest)) ->
+  local_ok cf t rest -> guard_tok cf t -> guard cf rest ->
+  (if first then Pd = [] /\ alookup (open_id t) (i_att ix) = Some (mkAtt l0 [])
+   else ~ In endId (all_ids (t :: rest)) /\ alookup endId (i_att ix) = Some (mkAtt l0 [])) ->
+  exists C,
+    rest = C ++ r_rest res
+    /\ (r_cv res = true -> fix_cv cf = true)
+    /\ (forall k, ~ In k (all_ids (t :: C)) -> (first = true \/ k <> endId) -> same_at ix (r_idx res) k)
+    /\ (exists tr, alookup (if first then open_id t else endId) (i_att (r_idx res)) = Some (mkAtt l0 tr))
+    /\ forall ixF, agree (all_ids (t :: C)) (r_idx res) ixF ->
+         (first = false -> alookup endId (i_att (r_idx res)) = alookup endId (i_att ixF)) ->
+         covered ixF (t :: C)
+         /\ (if first then [] else pieces (trail ixF endId) ++ pieces (lead ixF (open_id t)))
+            ++ Etail ixF t ++ EP ixF C ++ pieces (r_pushed res) = pieces Pd ++ flatten (t :: C).
+
+Definition S_fused (f : nat) : Prop :=
+  forall cf io ic b ox cx ch sa ix ix' l0,
+  walk_fused f cf (Fused io ic b ox cx ch) sa ix = Some ix' ->
+  NoDup (io :: all_ids ch ++ [ic]) -> ~ In 0 (io :: all_ids ch ++ [ic]) ->
+  guard cf ch ->
+  alookup io (i_att ix) = Some (mkAtt l0 []) ->
+  (forall k, ~ In k (io :: all_ids ch ++ [ic]) -> same_at ix ix' k)
+  /\ (exists tr, alookup io (i_att ix') = Some (mkAtt l0 tr))
+  /\ exists a, alookup ic (i_att ix') = Some (mkAtt a [])
+     /\ forall ixF, agree (io :: all_ids ch) ix' ixF -> lead ixF ic = a ->
+          covered ixF ch
+          /\ pieces (trail ixF io)
+             ++ E_seq (E_tok ixF) ch (d_slots (get_det io ixF)) (d_starts (get_det io ixF))
+             ++ pieces (lead ixF ic) = flatten ch.
+
+Lemma replace_last_app {A} (l : list A) x y : replace_last (l ++ [x]) y = l ++ [y].
+Proof.
+  induction l as [|z r IH]; [reflexivity|]. cbn [app replace_last].
+  destruct (r ++ [x]) eqn:E; [destruct r; discriminate|]. now rewrite IH.
+Qed.
+
+Lemma last_split_list {A} (l : list A) n : length l = S n -> exists l1 x, l = l1 ++ [x] /\ length l1 = n.
+Proof.
+  revert n. induction l as [|z r IH]; intros n H; [discriminate|].
+  destruct r as [|z2 r2].
+  - exists [], z. cbn in H. split; [reflexivity|cbn; lia].
+  - destruct n as [|n]; [cbn in H; lia|]. destruct (IH n) as [l1 [x [H1 H2]]]; [cbn in *; lia|].
+    exists (z :: l1), x. rewrite H1. split; [reflexivity|cbn; lia].
+Qed.
+
+Lemma get_det_set_det id d ix : get_det id (set_det id d ix) = d.
+Proof. unfold get_det. cbn. now rewrite alookup_aset_eq. Qed.
+
+Lemma S_fused_step f : S_scope f -> S_fused (S f).
+Proof.
+  intros IHs cf io ic b ox cx ch sa ix ix' l0 Hw Hnd H0 Hg Hatt.
+  cbn [walk_fused] in Hw.
+  destruct (walk_scope f cf io (child_mode b sa) [] ch false [] [] [] false ix) as [ix1|] eqn:Hws; [|discriminate].
+  inversion Hnd as [|? ? Hio Hnd']; subst.
+  assert (Hndch : NoDup (all_ids ch)) by (now apply NoDup_app_l in Hnd').
+  assert (Hio_ch : ~ In io (all_ids ch)) by (intros Hin; apply Hio; apply in_or_app; now left).
+  assert (Hic_ch : ~ In ic (all_ids ch)).
+  { intros Hin. apply (NoDup_app_disj _ _ ic Hnd' Hin). now left. }
+  assert (Hio_ic : io <> ic) by (intros ->; apply Hio; apply in_or_app; right; now left).
+  assert (Hio0 : io <> 0) by (intros ->; apply H0; now left).
+  assert (H0ch : ~ In 0 (all_ids ch)) by (intros Hin; apply H0; right; apply in_or_app; now left).
+  destruct (IHs cf io (child_mode b sa) [] ch false [] [] [] false ix ix1 l0 Hws Hndch H0ch Hio_ch
+                ltac:(discriminate) Hg ltac:(intros; exact Hatt))
+    as [SLn [STn [Hsl [Hst [Hlen [Hin [Hfr [_ [Hopen Heq]]]]]]]]].
+  cbn [app] in Hsl, Hst.
+  destruct (Hopen eq_refl Hio0) as [X HX].
+  destruct (last_split_list SLn _ Hlen) as [S1 [lst [HS1 HS1len]]].
+  rewrite Hsl, HS1, last_last in Hw.
+  destruct (split_detached lst) as [d a] eqn:Hsd.
+  inversion Hw; subst ix'; clear Hw.
+  rewrite replace_last_app.
+  set (tr' := mkDet (S1 ++ [d]) (d_bb (get_det io ix1)) (d_bbc (get_det io ix1)) (d_starts (get_det io ix1))).
+  split; [|split].
+  - intros k Hk. assert (k <> io) by (intros ->; apply Hk; now left).
+    assert (k <> ic) by (intros ->; apply Hk; right; apply in_or_app; right; now left).
+    assert (~ In k (all_ids ch)) by (intros Hi; apply Hk; right; apply in_or_app; now left).
+    eapply same_at_trans; [apply Hfr; assumption|].
+    eapply same_at_trans; [apply (set_det_other io tr' ix1 k); assumption|apply set_leading_other; assumption].
+  - exists X. cbn. rewrite alookup_aset_neq by exact Hio_ic. exact HX.
+  - exists a. split; [apply set_leading_get|].
+    intros ixF Hag Hlead.
+    assert (Hag1 : agree (all_ids ch) ix1 ixF).
+    { intros k Hk. assert (k <> io) by (intros ->; contradiction). assert (k <> ic) by (intros ->; contradiction).
+      eapply same_at_trans; [|apply Hag; now right].
+      eapply same_at_trans; [apply (set_det_other io tr' ix1 k); assumption|apply set_leading_other; assumption]. }
+    assert (Hioatt : alookup io (i_att ix1) = alookup io (i_att ixF)).
+    { destruct (Hag io (or_introl eq_refl)) as [Ha _]. rewrite <- Ha. cbn.
+      now rewrite alookup_aset_neq by exact Hio_ic. }
+    destruct (Heq ixF Hag1 ltac:(intros; exact Hioatt)) as [Hcov Heqn].
+    split; [exact Hcov|].
+    assert (Hdet : get_det io ixF = tr').
+    { destruct (Hag io (or_introl eq_refl)) as [_ Hd]. unfold get_det. rewrite <- Hd. cbn.
+      now rewrite alookup_aset_eq. }
+    rewrite Hdet. cbn [d_slots d_starts tr']. rewrite Hst.
+    cbn [is_nil andb] in Heqn. assert (Hnz : negb (io =? 0) = true) by (apply negb_true_iff; now apply N.eqb_neq).
+    rewrite Hnz in Heqn. cbn [pieces map app] in Heqn.
+    rewrite HS1 in Heqn. rewrite <- (split_detached_eq _ _ _ Hsd) in Heqn.
+    rewrite E_seq_last_slot in Heqn by lia. rewrite Hlead. exact Heqn.
+Qed.
+
+Lemma covered_app ix a b : covered ix (a ++ b) <-> covered ix a /\ covered ix b.
+Proof. induction a as [|x r IH]; cbn [app covered]; [tauto|rewrite IH; tauto]. Qed.
+
+Lemma covered_skippable ix C : forallb skippable C = true -> covered ix C.
+Proof.
+  induction C as [|t r IH]; intros H; [exact I|].
+  cbn [forallb] in H. apply andb_true_iff in H. destruct H as [H1 H2].
+  cbn [covered]. split; [|now apply IH]. destruct t; [now left|discriminate H1].
+Qed.
+
+Lemma E_seq_skip_prefix f sk X sl st :
+  forallb skippable sk = true -> E_seq f (sk ++ X) sl st = E_seq f X sl st.
+Proof.
+  induction sk as [|t r IH]; intros H; [reflexivity|].
+  cbn [forallb] in H. apply andb_true_iff in H. destruct H as [H1 H2].
+  cbn [app]. rewrite E_seq_skip by exact H1. now apply IH.
+Qed.
+
+Lemma all_ids_cons t r : all_ids (t :: r) = all_ids_tok t ++ all_ids r.
+Proof. reflexivity. Qed.
+
+Lemma nomatch_disjoint STn C R :
+  NoDup (all_ids (C ++ R)) -> (forall s, In s STn -> In s (all_ids R)) -> nomatch STn C.
+Proof.
+  intros Hnd Hin. destruct STn as [|s STn]; [exact I|].
+  intros t Ht Hs. rewrite all_ids_app in Hnd.
+  assert (HsR : In s (all_ids R)) by (apply Hin; now left).
+  split; intros ->.
+  - apply (NoDup_app_disj _ _ _ Hnd (in_all_ids t C Ht _ (open_id_in t)) HsR).
+  - apply (NoDup_app_disj _ _ _ Hnd (in_all_ids t C Ht _ (close_id_in t)) HsR).
+Qed.
+
+Lemma S_scope_step f : S_scope f -> S_decl f -> S_scope (S f).
+Proof.
+  intros IHs IHd cf scope mode Pd rest cv slots bbs starts hb ix ix' l0 Hw Hnd H0 Hsc Hcv Hg Hopen.
+  cbn [walk_scope] in Hw.
+  destruct (gather rest) as [sk rest1] eqn:Hga.
+  destruct (gather_spec _ _ _ Hga) as [Hrest [Hsk Hhead]].
+  destruct rest1 as [|t r].
+  - (* the scope is exhausted *)
+    rewrite app_nil_r in Hrest. subst rest.
+    exists [Pd ++ sk], [].
+    match type of Hw with Some (set_det scope ?D ix) = _ => set (D0 := D) in Hw end.
+    inversion Hw; subst ix'; clear Hw.
+    rewrite get_det_set_det. cbn [d_slots d_starts D0]. rewrite app_nil_r.
+    split; [reflexivity|]. split; [reflexivity|]. split; [reflexivity|]. split; [intros s []|].
+    split; [intros k _ Hk; now apply set_det_other|].
+    split; [reflexivity|].
+    split; [intros Hs Hz; exists []; now apply Hopen|].
+    intros ixF Hag Hsca. split; [now apply covered_skippable|].
+    rewrite <- (app_nil_r sk) at 1. rewrite E_seq_skip_prefix by exact Hsk. cbn [E_seq concat].
+    rewrite app_nil_r. rewrite (flatten_skippable _ Hsk). rewrite pieces_app.
+    destruct (is_nil slots && negb (scope =? 0)) eqn:Hc; [|reflexivity].
+    apply andb_true_iff in Hc. destruct Hc as [Hn Hz]. destruct slots; [|discriminate Hn].
+    apply negb_true_iff in Hz. apply N.eqb_neq in Hz.
+    specialize (Hsca eq_refl Hz). cbn in Hsca. rewrite (Hopen eq_refl Hz) in Hsca.
+    symmetry in Hsca. destruct (lead_of _ _ _ _ Hsca) as [_ Htr]. now rewrite Htr.
+  - (* a declaration starts at t *)
+    subst rest.
+    assert (Htid : (if cv && negb (fix_cv cf) then close_id t else open_id t) = open_id t).
+    { destruct cv; [rewrite (Hcv eq_refl)|]; reflexivity. }
+    rewrite Htid in Hw. clear Htid.
+    set (pend0 := Pd ++ sk) in *.
+    set (fn := first_newline_index pend0) in *.
+    set (bo := Nat.eqb (length slots) 0 && negb (scope =? 0) && Nat.ltb fn (length pend0)
+               && slice_has_comment (firstn fn pend0)) in *.
+    set (ix0 := if bo then set_trailing scope (firstn fn pend0) ix else ix) in *.
+    set (pend1 := if bo then skipn fn pend0 else pend0) in *.
+    destruct (split_detached pend1) as [d a] eqn:Hsd.
+    set (ix1 := set_leading (open_id t) a ix0) in *.
+    destruct (decl_loop f cf mode true t r [] false (open_id t) ix1) as [res|] eqn:Hdl; [|discriminate].
+    (* id bookkeeping *)
+    assert (Hids : all_ids (sk ++ t :: r) = all_ids sk ++ all_ids_tok t ++ all_ids r) by (now rewrite all_ids_app, all_ids_cons).
+    rewrite Hids in *. clear Hids.
+    assert (Hnd_tr : NoDup (all_ids (t :: r))) by (rewrite all_ids_cons; now apply NoDup_app_r in Hnd).
+    assert (H0_tr : ~ In 0 (all_ids (t :: r))).
+    { rewrite all_ids_cons. intros Hi. apply H0. apply in_or_app. now right. }
+    assert (Hsc_tr : ~ In scope (all_ids (t :: r))).
+    { rewrite all_ids_cons. intros Hi. apply Hsc. apply in_or_app. now right. }
+    pose proof (guard_suffix _ _ _ Hg) as Hg_tr. cbn [guard] in Hg_tr. destruct Hg_tr as [Hlo [Hgt Hgr]].
+    destruct (IHd cf mode true t r [] false (open_id t) ix1 res a Hdl Hhead Hnd_tr H0_tr Hlo Hgt Hgr
+                  (conj eq_refl (set_leading_get _ _ _)))
+      as [C [Hr [Hcvres [Hfr_d [[trt Hatt_t] Heq_d]]]]].
+    assert (Hnd_R : NoDup (all_ids (r_rest res))).
+    { rewrite Hr in Hnd_tr. rewrite all_ids_cons, all_ids_app in Hnd_tr.
+      apply NoDup_app_r in Hnd_tr. now apply NoDup_app_r in Hnd_tr. }
+    assert (Hsub_R : forall k, In k (all_ids (r_rest res)) -> In k (all_ids (t :: r))).
+    { intros k Hk. rewrite Hr. rewrite all_ids_cons, all_ids_app. apply in_or_app. right. apply in_or_app. now right. }
+    assert (Hsub_tC : forall k, In k (all_ids (t :: C)) -> In k (all_ids (t :: r))).
+    { intros k Hk. rewrite Hr. rewrite all_ids_cons, all_ids_app. rewrite all_ids_cons in Hk.
+      apply in_app_or in Hk. apply in_or_app. destruct Hk as [Hk|Hk]; [now left|right; apply in_or_app; now left]. }
+    assert (Hsub_all : forall k, In k (all_ids (t :: r)) -> In k (all_ids sk ++ all_ids_tok t ++ all_ids r)).
+    { intros k Hk. apply in_or_app. right. exact Hk. }
+    assert (Hdisj : forall k, In k (all_ids (t :: C)) -> ~ In k (all_ids (r_rest res))).
+    { intros k Hk HkR. rewrite Hr in Hnd_tr. rewrite all_ids_cons, all_ids_app, app_assoc in Hnd_tr.
+      rewrite all_ids_cons in Hk. apply (NoDup_app_disj _ _ k Hnd_tr Hk HkR). }
+    destruct (IHs cf scope mode (r_pushed res) (r_rest res) (r_cv res) (slots ++ [d])
+                  (bbs ++ [hb || (Nat.eqb (length bbs) 0 && slice_has_comment d)])
+                  (starts ++ [open_id t]) (r_blank res) (r_idx res) ix' l0 Hw Hnd_R
+                  ltac:(intros Hi; apply H0_tr; now apply Hsub_R)
+                  ltac:(intros Hi; apply Hsc_tr; now apply Hsub_R)
+                  Hcvres ltac:(rewrite Hr in Hgr; now apply guard_suffix in Hgr)
+                  ltac:(intros He; destruct slots; discriminate He))
+      as [SLn' [STn' [Hsl [Hst [Hlen [Hin [Hfr_s [Hsc_s [_ Heq_s]]]]]]]]].
+    exists (d :: SLn'), (open_id t :: STn').
+    rewrite <- app_assoc in Hsl, Hst. cbn [app] in Hsl, Hst.
+    split; [exact Hsl|]. split; [exact Hst|]. split; [cbn [length]; now rewrite Hlen|].
+    assert (Hopen_in : In (open_id t) (all_ids sk ++ all_ids_tok t ++ all_ids r)).
+    { apply in_or_app. right. apply in_or_app. left. apply open_id_in. }
+    split.
+    { intros s [<-|Hs]; [exact Hopen_in|]. apply Hsub_all, Hsub_R, Hin, Hs. }
+    assert (Hsc_ne : scope <> open_id t) by (intros ->; now apply Hsc).
+    (* the entry of the scope's open bracket *)
+    assert (Hbo_false : slots <> [] -> bo = false).
+    { intros Hs. unfold bo. destruct slots; [congruence|reflexivity]. }
+    assert (Hscope_keep : alookup scope (i_att ix') = alookup scope (i_att ix0)).
+    { rewrite (Hsc_s ltac:(intros He; destruct slots; discriminate He)).
+      destruct (Hfr_d scope ltac:(intros Hi; apply Hsc_tr; now apply Hsub_tC) (or_introl eq_refl)) as [Ha _].
+      rewrite <- Ha. cbn. now rewrite alookup_aset_neq by exact Hsc_ne. }
+    split.
+    { intros k Hk Hks.
+      assert (Hk1 : ~ In k (all_ids (t :: r))) by (intros Hi; apply Hk; now apply Hsub_all).
+      assert (S1 : same_at ix ix0 k).
+      { unfold ix0. destruct bo; [apply set_trailing_other; exact Hks|apply same_at_refl]. }
+      assert (S2 : same_at ix0 ix1 k).
+      { apply (set_leading_other (open_id t) a ix0 k). intros ->. now apply Hk. }
+      assert (S3 : same_at ix1 (r_idx res) k).
+      { apply Hfr_d; [intros Hi; apply Hk1; now apply Hsub_tC|now left]. }
+      assert (S4 : same_at (r_idx res) ix' k).
+      { apply Hfr_s; [intros Hi; apply Hk1; now apply Hsub_R|exact Hks]. }
+      exact (same_at_trans _ _ _ _ (same_at_trans _ _ _ _ (same_at_trans _ _ _ _ S1 S2) S3) S4). }
+    split.
+    { intros Hs. rewrite Hscope_keep. unfold ix0. now rewrite (Hbo_false Hs). }
+    split.
+    { intros Hs Hz. rewrite Hscope_keep. unfold ix0. destruct bo.
+      - eexists. apply set_trailing_get. now apply Hopen.
+      - exists []. now apply Hopen. }
+    intros ixF Hag Hsca.
+    assert (Hag_d : agree (all_ids (t :: C)) (r_idx res) ixF).
+    { intros k Hk. eapply same_at_trans.
+      - apply Hfr_s; [now apply Hdisj|]. intros ->. apply Hsc_tr. now apply Hsub_tC.
+      - apply Hag. now apply Hsub_all, Hsub_tC. }
+    destruct (Heq_d ixF Hag_d ltac:(discriminate)) as [Hcov_d Heqn_d].
+    assert (Hag_s : agree (all_ids (r_rest res)) ix' ixF).
+    { intros k Hk. apply Hag. now apply Hsub_all, Hsub_R. }
+    destruct (Heq_s ixF Hag_s ltac:(intros He; destruct slots; discriminate He)) as [Hcov_s Heqn_s].
+    assert (Hnil : is_nil (slots ++ [d]) = false) by (destruct slots; reflexivity).
+    rewrite Hnil in Heqn_s. cbn [andb app] in Heqn_s. cbn [app pieces map] in Heqn_d.
+    split.
+    { apply covered_app. split; [now apply covered_skippable|]. rewrite Hr.
+      change (t :: C ++ r_rest res) with ((t :: C) ++ r_rest res). apply covered_app. now split. }
+    rewrite E_seq_skip_prefix by exact Hsk. rewrite E_seq_match by (exact Hhead || reflexivity).
+    rewrite Hr. rewrite E_seq_nomatch.
+    2:{ apply (nomatch_disjoint STn' C (r_rest res)); [|exact Hin].
+        rewrite Hr in Hnd_tr. rewrite all_ids_cons in Hnd_tr. now apply NoDup_app_r in Hnd_tr. }
+    rewrite Heqn_s. rewrite E_tok_Etail.
+    assert (Hlead : lead ixF (open_id t) = a).
+    { destruct (Hag_d (open_id t) ltac:(rewrite all_ids_cons; apply in_or_app; left; apply open_id_in)) as [Ha _].
+      rewrite Hatt_t in Ha. symmetry in Ha. now destruct (lead_of _ _ _ _ Ha). }
+    rewrite Hlead.
+    rewrite flatten_app. rewrite (flatten_skippable _ Hsk).
+    change (t :: C ++ r_rest res) with ((t :: C) ++ r_rest res). rewrite flatten_app. rewrite <- Heqn_d.
+    assert (Hpre : (if is_nil slots && negb (scope =? 0) then pieces (trail ixF scope) else []) ++ pieces d ++ pieces a
+                   = pieces Pd ++ pieces sk).
+    { rewrite <- !pieces_app. rewrite (split_detached_eq _ _ _ Hsd).
+      destruct (is_nil slots && negb (scope =? 0)) eqn:Hc.
+      - apply andb_true_iff in Hc. destruct Hc as [Hn Hz]. destruct slots; [|discriminate Hn].
+        apply negb_true_iff in Hz. apply N.eqb_neq in Hz.
+        specialize (Hsca eq_refl Hz). rewrite Hscope_keep in Hsca. unfold ix0, pend1 in *.
+        destruct bo.
+        + rewrite (set_trailing_get _ _ _ _ (Hopen eq_refl Hz)) in Hsca. symmetry in Hsca.
+          destruct (lead_of _ _ _ _ Hsca) as [_ Htr]. rewrite Htr. rewrite <- pieces_app. now rewrite firstn_skipn.
+        + rewrite (Hopen eq_refl Hz) in Hsca. symmetry in Hsca.
+          destruct (lead_of _ _ _ _ Hsca) as [_ Htr]. now rewrite Htr.
+      - assert (Hb : bo = false).
+        { unfold bo. destruct slots; [|reflexivity]. cbn in Hc. cbn. now rewrite Hc. }
+        unfold pend1. now rewrite Hb. }
+    repeat rewrite <- app_assoc. rewrite (app_assoc _ (pieces d)). rewrite (app_assoc _ (pieces a)).
+    rewrite <- (app_assoc _ (pieces d) (pieces a)). rewrite Hpre.
+    repeat rewrite <- app_assoc. reflexivity.
+Qed.
+
+Lemma EP_app ix a b : EP ix (a ++ b) = EP ix a ++ EP ix b.
+Proof. unfold EP. apply E_seq_nomatch. exact I. Qed.
+
+(* what follows the processing of a token inside walkDecl: either the declaration ends here
+   (decl_finish) or the loop goes on with the next non-skippable token *)
+Lemma cont_spec f : S_decl f ->
+  forall cf mode (boundary : bool) endSemi sa' endId' ixB rest res lc,
+  (if boundary then Some (decl_finish cf ixB endId' endSemi [] rest)
+   else let '(sk, rest1) := gather rest in
+        match rest1 with
+        | [] => Some (decl_finish cf ixB endId' endSemi sk [])
+        | t' :: r' => decl_loop f cf mode false t' r' sk sa' endId' ixB
+        end) = Some res ->
+  NoDup (all_ids rest) -> ~ In 0 (all_ids rest) -> ~ In endId' (all_ids rest) ->
+  guard cf rest ->
+  (boundary = true -> fix_cv cf = true \/ cv_after rest = false) ->
+  (boundary = false -> forallb skippable rest = true -> fix_keep_ws cf = true \/ tail_ok rest = true) ->
+  alookup endId' (i_att ixB) = Some (mkAtt lc []) ->
+  exists C,
+    rest = C ++ r_rest res
+    /\ (r_cv res = true -> fix_cv cf = true)
+    /\ (forall k, ~ In k (all_ids C) -> k <> endId' -> same_at ixB (r_idx res) k)
+    /\ (exists trc, alookup endId' (i_att (r_idx res)) = Some (mkAtt lc trc))
+    /\ forall ixF, agree (all_ids C) (r_idx res) ixF ->
+         alookup endId' (i_att (r_idx res)) = alookup endId' (i_att ixF) ->
+         covered ixF C
+         /\ pieces (trail ixF endId') ++ EP ixF C ++ pieces (r_pushed res) = flatten C.
+Proof.
+  intros IHd cf mode boundary endSemi sa' endId' ixB rest res lc Hc Hnd H0 Hend Hg Hcvg Hwsg Hatt.
+  assert (Hfin : forall pending rest0,
+             (pending = [] \/ rest0 = []) ->
+             (fix_keep_ws cf = true \/ tail_ok pending = true) ->
+             res = decl_finish cf ixB endId' endSemi pending rest0 ->
+             exists C0,
+               rest0 = C0 ++ r_rest res /\ forallb skippable C0 = true
+               /\ (forall k, k <> endId' -> same_at ixB (r_idx res) k)
+               /\ (exists trc, alookup endId' (i_att (r_idx res)) = Some (mkAtt lc trc)
+                               /\ trc ++ r_pushed res = pending ++ C0)).
+  { intros pending rest0 Hpr Hgd ->.
+    destruct (decl_finish_spec cf ixB endId' endSemi pending rest0 lc Hpr Hgd Hatt) as [C0 [TR [H1 [H2 [H3 H4]]]]].
+    exists C0. split; [exact H1|]. split; [exact H2|]. split.
+    - intros k Hk. rewrite H3. now apply set_trailing_if_other.
+    - exists TR. split; [|exact H4]. rewrite H3. now apply set_trailing_if_get. }
+  destruct boundary.
+  - (* the declaration ends at this token *)
+    assert (Hres : res = decl_finish cf ixB endId' endSemi [] rest) by (inversion Hc; reflexivity). clear Hc.
+    destruct (Hfin [] rest (or_introl eq_refl) (or_intror tail_ok_nil) Hres) as [C0 [H1 [H2 [H3 [trc [H4 H5]]]]]].
+    exists C0. split; [exact H1|]. split.
+    { intros Hcv. rewrite Hres, decl_finish_cv in Hcv. destruct (Hcvg eq_refl) as [Hf|Hf]; [exact Hf|congruence]. }
+    split; [intros k _ Hk; now apply H3|]. split; [now exists trc|].
+    intros ixF Hag Hsame. split; [now apply covered_skippable|].
+    rewrite H4 in Hsame. symmetry in Hsame. destruct (lead_of _ _ _ _ Hsame) as [_ Htr]. rewrite Htr.
+    rewrite (EP_skippable _ _ H2). cbn [app]. rewrite <- pieces_app. rewrite H5. cbn [app].
+    now rewrite (flatten_skippable _ H2).
+  - destruct (gather rest) as [sk rest1] eqn:Hga.
+    destruct (gather_spec _ _ _ Hga) as [Hrest [Hsk Hhead]].
+    destruct rest1 as [|t' r'].
+    + (* the scope ends inside the declaration *)
+      rewrite app_nil_r in Hrest. subst rest.
+      assert (Hres : res = decl_finish cf ixB endId' endSemi sk []) by (inversion Hc; reflexivity). clear Hc.
+      destruct (Hfin sk [] (or_intror eq_refl) (Hwsg eq_refl Hsk) Hres) as [C0 [H1 [H2 [H3 [trc [H4 H5]]]]]].
+      assert (HC0 : C0 = [] /\ r_rest res = []).
+      { destruct C0; [split; [reflexivity|]|discriminate H1]. cbn in H1. now symmetry. }
+      destruct HC0 as [-> Hrr]. rewrite app_nil_r in H5.
+      exists sk. split; [rewrite Hrr; now rewrite app_nil_r|]. split.
+      { intros Hcv. rewrite Hres, decl_finish_cv in Hcv. discriminate Hcv. }
+      split; [intros k _ Hk; now apply H3|]. split; [now exists trc|].
+      intros ixF Hag Hsame. split; [now apply covered_skippable|].
+      rewrite H4 in Hsame. symmetry in Hsame. destruct (lead_of _ _ _ _ Hsame) as [_ Htr]. rewrite Htr.
+      rewrite (EP_skippable _ _ Hsk). cbn [app]. rewrite <- pieces_app. rewrite H5.
+      now rewrite (flatten_skippable _ Hsk).
+    + (* the loop goes on at t' *)
+      subst rest. rewrite all_ids_app in Hnd, H0, Hend.
+      assert (Hnd' : NoDup (all_ids (t' :: r'))) by (now apply NoDup_app_r in Hnd).
+      assert (H0' : ~ In 0 (all_ids (t' :: r'))) by (intros Hi; apply H0; apply in_or_app; now right).
+      assert (Hend' : ~ In endId' (all_ids (t' :: r'))) by (intros Hi; apply Hend; apply in_or_app; now right).
+      pose proof (guard_suffix _ _ _ Hg) as Hg'. cbn [guard] in Hg'. destruct Hg' as [Hlo [Hgt Hgr]].
+      destruct (IHd cf mode false t' r' sk sa' endId' ixB res lc Hc Hhead Hnd' H0' Hlo Hgt Hgr (conj Hend' Hatt))
+        as [C2 [Hr [Hcv [Hfr [Hkeep Heq]]]]].
+      exists (sk ++ t' :: C2). split; [rewrite Hr; now rewrite <- app_assoc|]. split; [exact Hcv|].
+      split.
+      { intros k Hk Hke. apply Hfr; [|now right]. intros Hi. apply Hk. rewrite all_ids_app. apply in_or_app. now right. }
+      split; [exact Hkeep|].
+      intros ixF Hag Hsame.
+      assert (Hag' : agree (all_ids (t' :: C2)) (r_idx res) ixF).
+      { intros k Hk. apply Hag. rewrite all_ids_app. apply in_or_app. now right. }
+      destruct (Heq ixF Hag' ltac:(intros _; exact Hsame)) as [Hcov Heqn].
+      split; [apply covered_app; split; [now apply covered_skippable|exact Hcov]|].
+      rewrite EP_app, (EP_skippable _ _ Hsk). cbn [app]. rewrite EP_cons by exact Hhead.
+      rewrite E_tok_Etail. rewrite flatten_app, (flatten_skippable _ Hsk).
+      rewrite <- Heqn. repeat rewrite <- app_assoc. reflexivity.
+Qed.
+
+(* ---- one iteration of the main loop of walkDecl ---- *)
+Definition reg_leading (first : bool) (t : tok) (Pd : list tok) (endId : N) (ix : index) : index :=
+  if first then ix
+  else
+    let fn := first_newline_index Pd in
+    if slice_has_comment (firstn fn Pd) && Nat.ltb fn (length Pd)
+    then set_leading (open_id t) (skipn fn Pd) (set_trailing endId (firstn fn Pd) ix)
+    else set_leading (open_id t) Pd ix.
+
+Definition is_boundary (mode : bool) (t : tok) (sa' : bool) (rest : list tok) : bool :=
+  is_cls CSemi t || (is_braces t && (negb sa' || negb (next_nonskip_is_semi rest))) || (mode && is_cls CComma t).
+
+Lemma decl_loop_unfold f cf mode first t rest Pd sa endId ix :
+  decl_loop (S f) cf mode first t rest Pd sa endId ix =
+  match (if is_fused t then walk_fused f cf t (sa || is_cls CAssign t) (reg_leading first t Pd endId ix)
+         else Some (reg_leading first t Pd endId ix)) with
+  | None => None
+  | Some ixB =>
+    if is_boundary mode t (sa || is_cls CAssign t) rest
+    then Some (decl_finish cf ixB (close_id t) (is_cls CSemi t) [] rest)
+    else let '(sk, rest1) := gather rest in
+         match rest1 with
+         | [] => Some (decl_finish cf ixB (close_id t) (is_cls CSemi t) sk [])
+         | t' :: r' => decl_loop f cf mode false t' r' sk (sa || is_cls CAssign t) (close_id t) ixB
+         end
+  end.
+Proof. reflexivity. Qed.
+
+Lemma reg_leading_spec (first : bool) t Pd endId ix l0 :
+  (if first then Pd = [] /\ alookup (open_id t) (i_att ix) = Some (mkAtt l0 [])
+   else endId <> open_id t /\ alookup endId (i_att ix) = Some (mkAtt l0 [])) ->
+  exists leadt trE,
+    alookup (open_id t) (i_att (reg_leading first t Pd endId ix)) = Some (mkAtt leadt [])
+    /\ (first = true -> leadt = l0)
+    /\ (first = false -> alookup endId (i_att (reg_leading first t Pd endId ix)) = Some (mkAtt l0 trE)
+                         /\ pieces trE ++ pieces leadt = pieces Pd)
+    /\ (forall k, k <> open_id t -> (first = true \/ k <> endId) -> same_at ix (reg_leading first t Pd endId ix) k).
+Proof.
+  intros Hpre. unfold reg_leading. destruct first.
+  - destruct Hpre as [-> Hl]. exists l0, []. split; [exact Hl|]. split; [reflexivity|].
+    split; [discriminate|]. intros k _ _. apply same_at_refl.
+  - destruct Hpre as [Hne Hl]. cbn zeta.
+    set (fn := first_newline_index Pd).
+    destruct (slice_has_comment (firstn fn Pd) && Nat.ltb fn (length Pd)).
+    + exists (skipn fn Pd), (firstn fn Pd). split; [apply set_leading_get|]. split; [discriminate|]. split.
+      * intros _. split.
+        -- cbn [set_leading i_att]. rewrite alookup_aset_neq by exact Hne. now apply set_trailing_get.
+        -- rewrite <- pieces_app. now rewrite firstn_skipn.
+      * intros k Hk [Hf|Hke]; [discriminate Hf|].
+        eapply same_at_trans; [apply set_trailing_other; exact Hke|apply set_leading_other; exact Hk].
+    + exists Pd, []. split; [apply set_leading_get|]. split; [discriminate|]. split.
+      * intros _. split; [|reflexivity]. cbn [set_leading i_att]. now rewrite alookup_aset_neq by exact Hne.
+      * intros k Hk _. apply set_leading_other; exact Hk.
+Qed.
+
+Lemma tok_spec f : S_fused f ->
+  forall cf t sa' ixA ixB leadt,
+  (if is_fused t then walk_fused f cf t sa' ixA else Some ixA) = Some ixB ->
+  NoDup (all_ids_tok t) -> ~ In 0 (all_ids_tok t) -> guard_tok cf t ->
+  alookup (open_id t) (i_att ixA) = Some (mkAtt leadt []) ->
+  (forall k, ~ In k (all_ids_tok t) -> same_at ixA ixB k)
+  /\ exists lc,
+      alookup (close_id t) (i_att ixB) = Some (mkAtt lc [])
+      /\ (exists tro, alookup (open_id t) (i_att ixB) = Some (mkAtt leadt tro))
+      /\ (is_fused t = false -> lc = leadt)
+      /\ forall ixF,
+          (forall k, In k (all_ids_tok t) -> k <> close_id t -> same_at ixB ixF k) ->
+          (exists trc, alookup (close_id t) (i_att ixF) = Some (mkAtt lc trc)) ->
+          covered_tok ixF t /\ Ebody ixF t = flatten_tok t.
+Proof.
+  intros IHf cf t sa' ixA ixB leadt Hw Hnd H0 Hg Hatt.
+  destruct t as [i c x|io ic b ox cx ch].
+  - cbn [is_fused] in Hw. inversion Hw; subst ixB. cbn [open_id close_id] in *.
+    split; [intros; apply same_at_refl|]. exists leadt. split; [exact Hatt|]. split; [now exists []|].
+    split; [reflexivity|]. intros ixF _ [trc Htrc]. split; [|reflexivity].
+    cbn [covered_tok]. right. now apply (has_att_of _ _ _ Htrc).
+  - cbn [is_fused] in Hw. cbn [open_id close_id] in *. rewrite all_ids_fused in Hnd, H0.
+    apply guard_fused in Hg.
+    destruct (IHf cf io ic b ox cx ch sa' ixA ixB leadt Hw Hnd H0 Hg Hatt) as [Hfr [Hio [a [Hic Heq]]]].
+    split; [intros k Hk; apply Hfr; now rewrite all_ids_fused in Hk|].
+    exists a. split; [exact Hic|]. split; [exact Hio|]. split; [discriminate|].
+    intros ixF Hag [trc Htrc].
+    assert (Hne : io <> ic).
+    { inversion Hnd; subst. intros ->. apply H2. apply in_or_app. right. now left. }
+    assert (Hicch : ~ In ic (all_ids ch)).
+    { inversion Hnd as [|? ? _ Hnd']; subst. intros Hi. apply (NoDup_app_disj _ _ ic Hnd' Hi). now left. }
+    assert (Hag' : agree (io :: all_ids ch) ixB ixF).
+    { intros k Hk. apply Hag.
+      - rewrite all_ids_fused. destruct Hk as [<-|Hk]; [now left|right; apply in_or_app; now left].
+      - destruct Hk as [<-|Hk]; [exact Hne|]. intros ->. contradiction. }
+    destruct (lead_of _ _ _ _ Htrc) as [Hl _].
+    destruct (Heq ixF Hag' Hl) as [Hcov Heqn].
+    split.
+    + apply covered_fused. split; [|split; [now apply (has_att_of _ _ _ Htrc)|exact Hcov]].
+      destruct Hio as [tro Hio]. destruct (Hag' io (or_introl eq_refl)) as [Ha _]. rewrite Hio in Ha.
+      symmetry in Ha. now apply (has_att_of _ _ _ Ha).
+    + cbn [Ebody]. rewrite flatten_fused. cbn [app]. f_equal.
+      rewrite <- Heqn. repeat rewrite <- app_assoc. reflexivity.
+Qed.
+
+Lemma next_semi_skippable rest : forallb skippable rest = true -> next_nonskip_is_semi rest = false.
+Proof.
+  intros H. unfold next_nonskip_is_semi. destruct (gather rest) as [sk r] eqn:Hg.
+  destruct (gather_spec _ _ _ Hg) as [H1 [H2 H3]]. cbn [snd]. destruct r as [|t r]; [reflexivity|].
+  subst rest. rewrite forallb_app in H. apply andb_true_iff in H. destruct H as [_ H].
+  cbn [forallb] in H. apply andb_true_iff in H. destruct H as [H _]. congruence.
+Qed.
+
+Lemma S_decl_step f : S_decl f -> S_fused f -> S_decl (S f).
+Proof.
+  intros IHd IHf cf mode first t rest Pd sa endId ix res l0 Hd Hskt Hnd H0 Hlo Hgt Hgr Hpre.
+  rewrite decl_loop_unfold in Hd.
+  set (sa' := sa || is_cls CAssign t) in *.
+  set (ixA := reg_leading first t Pd endId ix) in *.
+  rewrite all_ids_cons in Hnd, H0.
+  assert (Hnd_t : NoDup (all_ids_tok t)) by (now apply NoDup_app_l in Hnd).
+  assert (Hnd_r : NoDup (all_ids rest)) by (now apply NoDup_app_r in Hnd).
+  assert (H0_t : ~ In 0 (all_ids_tok t)) by (intros Hi; apply H0; apply in_or_app; now left).
+  assert (H0_r : ~ In 0 (all_ids rest)) by (intros Hi; apply H0; apply in_or_app; now right).
+  assert (Hpre' : if first then Pd = [] /\ alookup (open_id t) (i_att ix) = Some (mkAtt l0 [])
+                  else endId <> open_id t /\ alookup endId (i_att ix) = Some (mkAtt l0 [])).
+  { destruct first; [exact Hpre|]. destruct Hpre as [Hni Hl]. split; [|exact Hl].
+    intros ->. apply Hni. rewrite all_ids_cons. apply in_or_app. left. apply open_id_in. }
+  destruct (reg_leading_spec first t Pd endId ix l0 Hpre') as [leadt [trE [HA1 [HA2 [HA3 HA4]]]]].
+  fold ixA in HA1, HA3, HA4.
+  destruct (if is_fused t then walk_fused f cf t sa' ixA else Some ixA) as [ixB|] eqn:Hw; [|discriminate].
+  destruct (tok_spec f IHf cf t sa' ixA ixB leadt Hw Hnd_t H0_t Hgt HA1) as [HB3 [lc [HB1 [[tro HB2] [HBleaf HB4]]]]].
+  assert (Hclose_r : ~ In (close_id t) (all_ids rest)).
+  { intros Hi. apply (NoDup_app_disj _ _ _ Hnd (close_id_in t) Hi). }
+  destruct (Hlo Hskt) as [Hlo_cv Hlo_ws].
+  assert (Hcvg : is_boundary mode t sa' rest = true -> fix_cv cf = true \/ cv_after rest = false).
+  { intros Hb. destruct Hlo_cv as [Hf|Hf]; [now left|right]. apply Hf.
+    unfold is_boundary in Hb. unfold bclass.
+    destruct (is_cls CSemi t); [reflexivity|]. destruct (is_braces t); [now rewrite orb_true_r|].
+    cbn [andb orb] in Hb. apply andb_true_iff in Hb. destruct Hb as [_ Hb]. now rewrite Hb. }
+  assert (Hwsg : is_boundary mode t sa' rest = false -> forallb skippable rest = true ->
+                 fix_keep_ws cf = true \/ tail_ok rest = true).
+  { intros Hb Hall. destruct Hlo_ws as [Hf|Hf]; [now left|right].
+    destruct (Hf Hall) as [Hsb|Htl]; [|exact Htl]. exfalso.
+    unfold is_boundary in Hb. rewrite (next_semi_skippable _ Hall) in Hb.
+    destruct (is_cls CSemi t); [discriminate Hb|]. cbn [orb] in Hsb. rewrite Hsb in Hb.
+    cbn [negb] in Hb. rewrite orb_true_r in Hb. discriminate Hb. }
+  destruct (cont_spec f IHd cf mode (is_boundary mode t sa' rest) (is_cls CSemi t) sa' (close_id t) ixB rest res lc
+                      Hd Hnd_r H0_r Hclose_r Hgr Hcvg Hwsg HB1)
+    as [C [Hrest [Hcv [Hfr_c [[trc Hkeep_c] Heq_c]]]]].
+  exists C. split; [exact Hrest|]. split; [exact Hcv|].
+  assert (Hnd_tC : NoDup (all_ids_tok t ++ all_ids C)).
+  { rewrite Hrest, all_ids_app, app_assoc in Hnd. now apply NoDup_app_l in Hnd. }
+  assert (HtC : forall k, In k (all_ids_tok t) -> ~ In k (all_ids C)).
+  { intros k Hk Hc. exact (NoDup_app_disj _ _ k Hnd_tC Hk Hc). }
+  assert (Hend_notin : first = false -> ~ In endId (all_ids_tok t) /\ ~ In endId (all_ids C)).
+  { intros ->. destruct Hpre as [Hni _]. rewrite all_ids_cons, Hrest, all_ids_app in Hni.
+    split; intros Hi; apply Hni; apply in_or_app; [now left|right; apply in_or_app; now left]. }
+  (* the entry of the open token at the end *)
+  assert (Hopen_res : exists tro', alookup (open_id t) (i_att (r_idx res)) = Some (mkAtt leadt tro')).
+  { destruct (is_fused t) eqn:Hfu.
+    - destruct t as [|io ic b ox cx ch]; [discriminate Hfu|]. cbn [open_id close_id] in *.
+      exists tro. destruct (Hfr_c io) as [Ha _].
+      + apply HtC. rewrite all_ids_fused. now left.
+      + rewrite all_ids_fused in Hnd_t. inversion Hnd_t; subst. intros ->. apply H2. apply in_or_app. right. now left.
+      + now rewrite <- Ha.
+    - destruct t as [i c x|]; [|discriminate Hfu]. cbn [open_id close_id] in *.
+      exists trc. now rewrite <- (HBleaf eq_refl). }
+  split.
+  { intros k Hk Hke. rewrite all_ids_cons in Hk.
+    assert (Hk_t : ~ In k (all_ids_tok t)) by (intros Hi; apply Hk; apply in_or_app; now left).
+    assert (Hk_C : ~ In k (all_ids C)) by (intros Hi; apply Hk; apply in_or_app; now right).
+    assert (S1 : same_at ix ixA k) by (apply HA4; [intros ->; apply Hk_t; apply open_id_in|exact Hke]).
+    assert (S2 : same_at ixA ixB k) by (now apply HB3).
+    assert (S3 : same_at ixB (r_idx res) k) by (apply Hfr_c; [exact Hk_C|intros ->; apply Hk_t; apply close_id_in]).
+    exact (same_at_trans _ _ _ _ (same_at_trans _ _ _ _ S1 S2) S3). }
+  split.
+  { destruct first.
+    - destruct Hopen_res as [tro' Ho]. exists tro'. now rewrite <- (HA2 eq_refl).
+    - destruct (HA3 eq_refl) as [HE _]. destruct (Hend_notin eq_refl) as [He1 He2]. exists trE.
+      destruct (HB3 endId He1) as [Ha _]. destruct (Hfr_c endId He2) as [Hb _].
+      + intros ->. apply He1. apply close_id_in.
+      + now rewrite <- Hb, <- Ha. }
+  intros ixF Hag Hsame.
+  assert (HagB : forall k, In k (all_ids_tok t) -> k <> close_id t -> same_at ixB ixF k).
+  { intros k Hk Hkc. eapply same_at_trans; [apply Hfr_c; [now apply HtC|exact Hkc]|].
+    apply Hag. rewrite all_ids_cons. apply in_or_app. now left. }
+  assert (Hclose_F : alookup (close_id t) (i_att (r_idx res)) = alookup (close_id t) (i_att ixF)).
+  { apply Hag. rewrite all_ids_cons. apply in_or_app. left. apply close_id_in. }
+  destruct (HB4 ixF HagB ltac:(exists trc; now rewrite <- Hclose_F)) as [Hcov_t Hbody].
+  assert (HagC : agree (all_ids C) (r_idx res) ixF).
+  { intros k Hk. apply Hag. rewrite all_ids_cons. apply in_or_app. now right. }
+  destruct (Heq_c ixF HagC Hclose_F) as [Hcov_C Heqn].
+  split; [cbn [covered]; now split|].
+  rewrite Etail_Ebody, Hbody. cbn [flatten]. rewrite <- Heqn.
+  assert (Hprefix : (if first then [] else pieces (trail ixF endId) ++ pieces (lead ixF (open_id t))) = pieces Pd).
+  { destruct first.
+    - destruct Hpre as [-> _]. reflexivity.
+    - destruct (HA3 eq_refl) as [HE Hsplit]. destruct (Hend_notin eq_refl) as [He1 He2].
+      assert (HEres : alookup endId (i_att (r_idx res)) = Some (mkAtt l0 trE)).
+      { destruct (HB3 endId He1) as [Ha _]. destruct (Hfr_c endId He2) as [Hb _].
+        - intros ->. apply He1. apply close_id_in.
+        - now rewrite <- Hb, <- Ha. }
+      rewrite (Hsame eq_refl) in HEres. destruct (lead_of _ _ _ _ HEres) as [_ Htr]. rewrite Htr.
+      destruct Hopen_res as [tro' Ho].
+      assert (HoF : alookup (open_id t) (i_att ixF) = Some (mkAtt leadt tro')).
+      { destruct (Hag (open_id t)) as [Ha _]; [rewrite all_ids_cons; apply in_or_app; left; apply open_id_in|].
+        now rewrite <- Ha. }
+      destruct (lead_of _ _ _ _ HoF) as [Hl _]. rewrite Hl. exact Hsplit. }
+  rewrite Hprefix. repeat rewrite <- app_assoc. reflexivity.
+Qed.
+
+Lemma spec_mutual : forall f, S_scope f /\ S_decl f /\ S_fused f.
+Proof.
+  induction f as [|f [IHs [IHd IHf]]].
+  - split; [|split].
+    + intros cf scope mode Pd rest cv slots bbs starts hb ix ix' l0 H. discriminate H.
+    + intros cf mode first t rest Pd sa endId ix res l0 H. discriminate H.
+    + intros cf io ic b ox cx ch sa ix ix' l0 H. discriminate H.
+  - split; [|split].
+    + now apply S_scope_step.
+    + now apply S_decl_step.
+    + now apply S_fused_step.
+Qed.
+
+(* ---- the theorems ---- *)
+Lemma agree_refl K ix : agree K ix ix.
+Proof. intros k _. apply same_at_refl. Qed.
+
+Theorem roundtrip_general cf toks ix :
+  wf_toks toks -> guard cf toks -> build cf toks = Some ix ->
+  covered ix toks /\ emit_roundtrip ix toks = flatten toks.
+Proof.
+  intros [Hnd H0] Hg Hb. unfold build in Hb.
+  destruct (proj1 (spec_mutual (S (toks_size toks))) cf 0 false [] toks false [] [] [] false empty_index ix []
+                  Hb Hnd H0 H0 ltac:(discriminate) Hg ltac:(intros _ Hz; now contradiction Hz))
+    as [SLn [STn [Hsl [Hst [_ [_ [_ [_ [_ Heq]]]]]]]]].
+  destruct (Heq ix (agree_refl _ _) ltac:(intros; reflexivity)) as [Hcov Heqn].
+  split; [exact Hcov|]. rewrite (emit_roundtrip_E _ _ Hcov). rewrite Hsl, Hst. exact Heqn.
+Qed.
+
+Lemma emit_roundtrip_id_lemma toks ix :
+  wf_toks toks -> build cfg_fixed toks = Some ix -> emit_roundtrip ix toks = flatten toks.
+Proof. intros Hwf Hb. apply (roundtrip_general cfg_fixed toks ix Hwf); [now apply guard_fixed|exact Hb]. Qed.
+
+Lemma emit_roundtrip_id_partial_lemma toks ix :
+  wf_toks toks -> guard cfg_asis toks -> build cfg_asis toks = Some ix ->
+  emit_roundtrip ix toks = flatten toks.
+Proof. intros Hwf Hg Hb. now apply (roundtrip_general cfg_asis toks ix Hwf Hg Hb). Qed.
+
+(* partition: the skippable tokens read from the index along the tree *)
+Lemma filter_pieces_trivia (sel : N * list N -> bool) l :
+  filter sel (pieces l) = pieces (filter (fun t => sel (open_id t, leaf_text t)) l).
+Proof. unfold pieces. induction l as [|t r IH]; cbn [map filter]; [reflexivity|]. destruct (sel _); cbn [map]; now rewrite IH. Qed.
+
+Definition is_trivia_id (toks : list tok) (p : N * list N) : bool :=
+  existsb (fun t => open_id t =? fst p) (trivia_of toks).
+
+Lemma trivia_partition_general cf toks ix :
+  wf_toks toks -> guard cf toks -> build cf toks = Some ix ->
+  tree_trivia ix toks = filter (is_trivia_id toks) (flatten toks).
+Proof.
+  intros Hwf Hg Hb. unfold tree_trivia. destruct (roundtrip_general cf toks ix Hwf Hg Hb) as [_ ->]. reflexivity.
+Qed.
+
+(* PrintFile *)
+Lemma flat_map_snd_pieces l : flat_map snd (pieces l) = text_of l.
+Proof. unfold pieces, text_of. induction l as [|t r IH]; cbn [map flat_map snd]; [reflexivity|now rewrite IH]. Qed.
+
+Lemma print_file_general cf toks :
+  wf_toks toks -> guard cf toks ->
+  exists ix pend out,
+    build cf toks = Some ix /\ emit_file ix toks = (pend, out)
+    /\ flat_map snd out ++ text_of pend = source_text toks
+    /\ print_file_rt cf toks = Some (finish_file cf (flat_map snd out) (text_of pend)).
+Proof.
+  intros Hwf Hg. destruct (build cf toks) as [ix|] eqn:Hb; [|now destruct (build_total_lemma cf toks)].
+  destruct (roundtrip_general cf toks ix Hwf Hg Hb) as [_ Hrt].
+  unfold emit_roundtrip in Hrt. destruct (emit_file ix toks) as [pend out] eqn:He.
+  exists ix, pend, out. split; [reflexivity|]. split; [exact He|]. split.
+  - unfold source_text. rewrite <- Hrt. rewrite flat_map_app. now rewrite flat_map_snd_pieces.
+  - unfold print_file_rt. rewrite Hb, He. reflexivity.
+Qed.
+
+Lemma print_file_roundtrip_lemma toks :
+  wf_toks toks -> print_file_rt cfg_fixed toks = Some (source_text toks).
+Proof.
+  intros Hwf. destruct (print_file_general cfg_fixed toks Hwf ltac:(now apply guard_fixed))
+    as [ix [pend [out [_ [_ [Hs Hp]]]]]].
+  rewrite Hp. unfold finish_file. cbn [fix_eof cfg_fixed]. now rewrite Hs.
+Qed.
+
+(* the condition under which the dom layer leaves the last chunk of the file alone *)
+Definition eof_ok (body tail : list N) : bool :=
+  if all_eq 32 tail || all_eq 10 tail
+  then match tail with
+       | [] => ends_nl body
+       | [10] => negb (ends_nl body)
+       | _ => false
+       end
+  else ends_nl (body ++ tail).
+
+Lemma finish_file_ok cf body tail : eof_ok body tail = true -> finish_file cf body tail = body ++ tail.
+Proof.
+  unfold eof_ok, finish_file. intros H. destruct (fix_eof cf); [reflexivity|].
+  destruct (all_eq 32 tail || all_eq 10 tail).
+  - destruct tail as [|c [|c2 r]].
+    + rewrite H. now rewrite app_nil_r.
+    + destruct c as [|p]; [discriminate H|].
+      destruct p as [p|p|]; try discriminate H. destruct p as [p|p|]; try discriminate H.
+      destruct p as [p|p|]; try discriminate H. destruct p as [p|p|]; try discriminate H.
+      apply negb_true_iff in H. now rewrite H.
+    + destruct c as [|p]; [discriminate H|]. repeat (destruct p as [p|p|]; try discriminate H).
+  - now rewrite H.
+Qed.
+
+Lemma print_file_roundtrip_partial_lemma toks ix pend out :
+  wf_toks toks -> guard cfg_asis toks ->
+  build cfg_asis toks = Some ix -> emit_file ix toks = (pend, out) ->
+  eof_ok (flat_map snd out) (text_of pend) = true ->
+  print_file_rt cfg_asis toks = Some (source_text toks).
+Proof.
+  intros Hwf Hg Hb He Hok.
+  destruct (print_file_general cfg_asis toks Hwf Hg) as [ix' [pend' [out' [Hb' [He' [Hs Hp]]]]]].
+  rewrite Hb in Hb'. inversion Hb'; subst ix'. rewrite He in He'. inversion He'; subst pend' out'.
+  rewrite Hp. rewrite (finish_file_ok _ _ _ Hok). now rewrite Hs.
+Qed.
+
+(* ---- partition: the trivia read from the index along the tree are exactly the skippable tokens ---- *)
+Fixpoint solid_ids_tok (t : tok) : list N :=
+  match t with
+  | Leaf i _ _ => if skippable t then [] else [i]
+  | Fused io ic _ _ _ ch =>
+    io :: (fix go (l : list tok) := match l with [] => [] | x :: r => solid_ids_tok x ++ go r end) ch ++ [ic]
+  end.
+Fixpoint solid_ids (l : list tok) : list N :=
+  match l with [] => [] | x :: r => solid_ids_tok x ++ solid_ids r end.
+
+Lemma solid_ids_fused io ic b ox cx ch :
+  solid_ids_tok (Fused io ic b ox cx ch) = io :: solid_ids ch ++ [ic].
+Proof.
+  cbn [solid_ids_tok].
+  match goal with |- _ :: ?g ch ++ _ = _ => assert (H : forall l, g l = solid_ids l) end.
+  { induction l as [|x r IH]; [reflexivity|]. cbn [solid_ids]. now rewrite <- IH. }
+  now rewrite H.
+Qed.
+
+Lemma trivia_fused io ic b ox cx ch : trivia_tok (Fused io ic b ox cx ch) = trivia_of ch.
+Proof.
+  cbn [trivia_tok].
+  match goal with |- ?g ch = _ => assert (H : forall l, g l = trivia_of l) end.
+  { induction l as [|x r IH]; [reflexivity|]. cbn [trivia_of]. now rewrite <- IH. }
+  apply H.
+Qed.
+
+Lemma ids_split_tok t : forall k, In k (all_ids_tok t) <-> In k (solid_ids_tok t) \/ In k (ids_of (trivia_tok t)).
+Proof.
+  induction t as [i c x|io ic b ox cx ch IH] using tok_ind2; intros k.
+  - cbn [all_ids_tok solid_ids_tok trivia_tok]. destruct (skippable (Leaf i c x)); cbn; tauto.
+  - rewrite all_ids_fused, solid_ids_fused, trivia_fused.
+    assert (Hl : forall k, In k (all_ids ch) <-> In k (solid_ids ch) \/ In k (ids_of (trivia_of ch))).
+    { clear k. induction ch as [|y r IHr]; intros k; [cbn; tauto|].
+      inversion IH; subst. cbn [all_ids solid_ids trivia_of]. unfold ids_of. rewrite map_app.
+      rewrite !in_app_iff. fold (ids_of (trivia_tok y)). fold (ids_of (trivia_of r)).
+      rewrite (H1 k), (IHr H2 k). tauto. }
+    cbn [In]. rewrite !in_app_iff. rewrite (Hl k). cbn [In]. tauto.
+Qed.
+
+Lemma ids_split l : forall k, In k (all_ids l) <-> In k (solid_ids l) \/ In k (ids_of (trivia_of l)).
+Proof.
+  induction l as [|y r IHr]; intros k; [cbn; tauto|].
+  cbn [all_ids solid_ids trivia_of]. unfold ids_of. rewrite map_app. rewrite !in_app_iff.
+  fold (ids_of (trivia_tok y)). fold (ids_of (trivia_of r)). rewrite (ids_split_tok y k), (IHr k). tauto.
+Qed.
+
+Lemma solid_trivia_disj_tok t : NoDup (all_ids_tok t) ->
+  forall k, In k (solid_ids_tok t) -> In k (ids_of (trivia_tok t)) -> False.
+Proof.
+  induction t as [i c x|io ic b ox cx ch IH] using tok_ind2; intros Hnd k Hs Ht.
+  - cbn [solid_ids_tok trivia_tok] in *. destruct (skippable (Leaf i c x)); [contradiction|contradiction].
+  - rewrite all_ids_fused in Hnd. rewrite solid_ids_fused in Hs. rewrite trivia_fused in Ht.
+    inversion Hnd as [|? ? Hio Hnd']; subst.
+    assert (Hch : forall k, In k (solid_ids ch) -> In k (ids_of (trivia_of ch)) -> False).
+    { apply NoDup_app_l in Hnd'. clear - IH Hnd'. induction ch as [|y r IHr]; intros k Hs Ht; [contradiction|].
+      inversion IH; subst. cbn [all_ids] in Hnd'. cbn [solid_ids trivia_of] in Hs, Ht.
+      unfold ids_of in Ht. rewrite map_app in Ht. apply in_app_or in Hs. apply in_app_or in Ht.
+      pose proof (NoDup_app_l _ _ Hnd') as Hy. pose proof (NoDup_app_r _ _ Hnd') as Hr.
+      destruct Hs as [Hs|Hs], Ht as [Ht|Ht].
+      - exact (H1 Hy k Hs Ht).
+      - apply (NoDup_app_disj _ _ k Hnd'); [apply ids_split_tok; now left|apply ids_split; now right].
+      - apply (NoDup_app_disj _ _ k Hnd'); [apply ids_split_tok; now right|apply ids_split; now left].
+      - exact (IHr H2 Hr k Hs Ht). }
+    assert (Htin : In k (all_ids ch)) by (apply ids_split; now right).
+    destruct Hs as [<-|Hs].
+    + apply Hio. apply in_or_app. now left.
+    + apply in_app_or in Hs. destruct Hs as [Hs|[<-|[]]]; [exact (Hch k Hs Ht)|].
+      apply (NoDup_app_disj _ _ ic Hnd' Htin). now left.
+Qed.
+
+Lemma solid_trivia_disj l : NoDup (all_ids l) ->
+  forall k, In k (solid_ids l) -> In k (ids_of (trivia_of l)) -> False.
+Proof.
+  induction l as [|y r IHr]; intros Hnd k Hs Ht; [contradiction|].
+  cbn [all_ids] in Hnd. cbn [solid_ids trivia_of] in Hs, Ht.
+  unfold ids_of in Ht. rewrite map_app in Ht. apply in_app_or in Hs. apply in_app_or in Ht.
+  pose proof (NoDup_app_l _ _ Hnd) as Hy. pose proof (NoDup_app_r _ _ Hnd) as Hr.
+  destruct Hs as [Hs|Hs], Ht as [Ht|Ht].
+  - exact (solid_trivia_disj_tok y Hy k Hs Ht).
+  - apply (NoDup_app_disj _ _ k Hnd); [apply ids_split_tok; now left|apply ids_split; now right].
+  - apply (NoDup_app_disj _ _ k Hnd); [apply ids_split_tok; now right|apply ids_split; now left].
+  - exact (IHr Hr k Hs Ht).
+Qed.
+
+Lemma filter_flatten_tok (sel : N * list N -> bool) t :
+  (forall u, In u (trivia_tok t) -> sel (open_id u, leaf_text u) = true) ->
+  (forall k x, In k (solid_ids_tok t) -> sel (k, x) = false) ->
+  filter sel (flatten_tok t) = pieces (trivia_tok t).
+Proof.
+  induction t as [i c x|io ic b ox cx ch IH] using tok_ind2; intros H1 H2.
+  - cbn [flatten_tok trivia_tok solid_ids_tok] in *. destruct (skippable (Leaf i c x)) eqn:Hs.
+    + pose proof (H1 (Leaf i c x) (or_introl eq_refl)) as Hx. cbn [open_id leaf_text] in Hx.
+      cbn [filter pieces map open_id leaf_text]. now rewrite Hx.
+    + cbn [filter pieces map]. now rewrite (H2 i x (or_introl eq_refl)).
+  - rewrite flatten_fused, trivia_fused. rewrite trivia_fused in H1. rewrite solid_ids_fused in H2.
+    cbn [filter]. rewrite (H2 io ox (or_introl eq_refl)). rewrite filter_app. cbn [filter].
+    rewrite (H2 ic cx) by (right; apply in_or_app; right; now left). rewrite app_nil_r.
+    assert (H2' : forall k x, In k (solid_ids ch) -> sel (k, x) = false).
+    { intros k x Hk. apply H2. right. apply in_or_app. now left. }
+    clear H2. induction ch as [|y r IHr]; [reflexivity|].
+    inversion IH as [|? ? Hy Hr]; subst. cbn [flatten trivia_of]. rewrite filter_app, pieces_app.
+    rewrite Hy.
+    + rewrite IHr; [reflexivity|assumption| |].
+      * intros u Hu. apply H1. cbn [trivia_of]. apply in_or_app. now right.
+      * intros k x Hk. apply H2'. cbn [solid_ids]. apply in_or_app. now right.
+    + intros u Hu. apply H1. cbn [trivia_of]. apply in_or_app. now left.
+    + intros k x Hk. apply H2'. cbn [solid_ids]. apply in_or_app. now left.
+Qed.
+
+Lemma filter_flatten (sel : N * list N -> bool) l :
+  (forall u, In u (trivia_of l) -> sel (open_id u, leaf_text u) = true) ->
+  (forall k x, In k (solid_ids l) -> sel (k, x) = false) ->
+  filter sel (flatten l) = pieces (trivia_of l).
+Proof.
+  induction l as [|y r IHr]; intros H1 H2; [reflexivity|].
+  cbn [flatten trivia_of]. rewrite filter_app, pieces_app. rewrite filter_flatten_tok.
+  - rewrite IHr; [reflexivity| |].
+    + intros u Hu. apply H1. cbn [trivia_of]. apply in_or_app. now right.
+    + intros k x Hk. apply H2. cbn [solid_ids]. apply in_or_app. now right.
+  - intros u Hu. apply H1. cbn [trivia_of]. apply in_or_app. now left.
+  - intros k x Hk. apply H2. cbn [solid_ids]. apply in_or_app. now left.
+Qed.
+
+Lemma trivia_partition_lemma_general cf toks ix :
+  wf_toks toks -> guard cf toks -> build cf toks = Some ix ->
+  tree_trivia ix toks = pieces (trivia_of toks).
+Proof.
+  intros Hwf Hg Hb. rewrite (trivia_partition_general cf toks ix Hwf Hg Hb).
+  apply filter_flatten.
+  - intros u Hu. unfold is_trivia_id. cbn [fst]. apply existsb_exists. exists u. split; [exact Hu|apply N.eqb_refl].
+  - intros k x Hk. unfold is_trivia_id. cbn [fst].
+    destruct (existsb (fun t => open_id t =? k) (trivia_of toks)) eqn:He; [|reflexivity].
+    apply existsb_exists in He. destruct He as [u [Hu Hek]]. apply N.eqb_eq in Hek.
+    exfalso. apply (solid_trivia_disj toks (proj1 Hwf) k Hk). unfold ids_of. rewrite <- Hek. now apply in_map.
+Qed.
+
+Lemma trivia_partition_lemma toks ix :
+  wf_toks toks -> build cfg_fixed toks = Some ix -> tree_trivia ix toks = pieces (trivia_of toks).
+Proof. intros Hwf Hb. apply (trivia_partition_lemma_general cfg_fixed toks ix Hwf); [now apply guard_fixed|exact Hb]. Qed.
+
+Lemma trivia_partition_partial_lemma toks ix :
+  wf_toks toks -> guard cfg_asis toks -> build cfg_asis toks = Some ix ->
+  tree_trivia ix toks = pieces (trivia_of toks).
+Proof. intros Hwf Hg Hb. now apply (trivia_partition_lemma_general cfg_asis toks ix Hwf Hg Hb). Qed.
+
+Lemma tree_partition_refuted_asis :
+  exists toks ix, wf_toks toks /\ build cfg_asis toks = Some ix /\
+                  tree_trivia ix toks <> pieces (trivia_of toks).
+Proof.
+  exists wit_drop. eexists. split; [|split].
+  - split; vm_compute.
+    + repeat constructor; intros H; repeat (destruct H as [H|H]; try discriminate H); exact H.
+    + intros H; repeat (destruct H as [H|H]; try discriminate H); exact H.
+  - vm_compute. reflexivity.
+  - vm_compute. discriminate.
+Qed.
+
+(* ======================================================================================
+   C31: format mode permutes the top-level declarations by a stable sort on (rank, name) *)
+Lemma sinsert_perm x l : Permutation (sinsert x l) (x :: l).
+Proof.
+  induction l as [|y r IH]; cbn [sinsert]; [apply Permutation_refl|].
+  destruct (decl_leb x y); [apply Permutation_refl|].
+  eapply Permutation_trans; [apply perm_skip; exact IH|apply perm_swap].
+Qed.
+
+Lemma ssort_perm l : Permutation (ssort l) l.
+Proof.
+  induction l as [|x r IH]; cbn [ssort]; [constructor|].
+  eapply Permutation_trans; [apply sinsert_perm|now apply perm_skip].
+Qed.
+
+Lemma filter_perm {A} (p : A -> bool) l l' : Permutation l l' -> Permutation (filter p l) (filter p l').
+Proof.
+  induction 1; cbn [filter].
+  - constructor.
+  - destruct (p x); [now apply perm_skip|assumption].
+  - destruct (p x), (p y); try apply Permutation_refl. apply perm_swap.
+  - eapply Permutation_trans; eassumption.
+Qed.
+
+Lemma format_preserves_declarations_lemma ds :
+  Permutation (format_order ds) (filter (fun d => negb (f_empty d)) ds).
+Proof. unfold format_order. apply filter_perm. apply ssort_perm. Qed.
+
+(* declarations that compareDecl does not distinguish keep their relative order; the ranks
+   syntax, package and body carry no name, so these blocks are never reordered *)
+Definition rank_is (r : N) (d : fdecl) : bool := f_rank d =? r.
+
+Lemma decl_compare_same_rank r x y :
+  r <> 2 -> r <> 3 -> f_rank x = r -> f_rank y = r -> decl_compare x y = Eq.
+Proof.
+  intros H2 H3 Hx Hy. unfold decl_compare. rewrite Hx, Hy, N.compare_refl.
+  apply N.eqb_neq in H2. apply N.eqb_neq in H3. now rewrite H2, H3.
+Qed.
+
+Lemma sinsert_filter_rank r x l :
+  r <> 2 -> r <> 3 ->
+  filter (rank_is r) (sinsert x l) = filter (rank_is r) (x :: l).
+Proof.
+  intros H2 H3. induction l as [|y l IH]; cbn [sinsert]; [reflexivity|].
+  destruct (decl_leb x y) eqn:Hle; [reflexivity|].
+  cbn [filter] in *. rewrite IH.
+  destruct (rank_is r x) eqn:Hx, (rank_is r y) eqn:Hy; try reflexivity.
+  exfalso. unfold rank_is in Hx, Hy. apply N.eqb_eq in Hx. apply N.eqb_eq in Hy.
+  unfold decl_leb in Hle. now rewrite (decl_compare_same_rank r x y H2 H3 Hx Hy) in Hle.
+Qed.
+
+Lemma ssort_filter_rank r l :
+  r <> 2 -> r <> 3 -> filter (rank_is r) (ssort l) = filter (rank_is r) l.
+Proof.
+  intros H2 H3. induction l as [|x l IH]; [reflexivity|].
+  cbn [ssort]. rewrite (sinsert_filter_rank r x (ssort l) H2 H3). cbn [filter]. now rewrite IH.
+Qed.
+
+Lemma filter_comm {A} (p q : A -> bool) l : filter p (filter q l) = filter q (filter p l).
+Proof.
+  induction l as [|x l IH]; [reflexivity|]. cbn [filter].
+  destruct (p x) eqn:Hp, (q x) eqn:Hq; cbn [filter]; rewrite ?Hp, ?Hq, IH; reflexivity.
+Qed.
+
+Lemma format_keeps_block_order_lemma r ds :
+  r <> 2 -> r <> 3 ->
+  filter (rank_is r) (format_order ds) = filter (rank_is r) (filter (fun d => negb (f_empty d)) ds).
+Proof.
+  intros H2 H3. unfold format_order. rewrite filter_comm. rewrite (ssort_filter_rank r ds H2 H3).
+  apply filter_comm.
+Qed.
+
+(* the output is ordered by rank *)
+Definition rank_sorted (l : list fdecl) : Prop :=
+  StronglySorted (fun a b => f_rank a <= f_rank b) l.
+
+Lemma decl_leb_rank x y : decl_leb x y = true -> f_rank x <= f_rank y.
+Proof.
+  unfold decl_leb, decl_compare. destruct (N.compare (f_rank x) (f_rank y)) eqn:Hc; intros H.
+  - apply N.compare_eq in Hc. rewrite Hc. apply N.le_refl.
+  - apply N.compare_lt_iff in Hc. now apply N.lt_le_incl.
+  - discriminate H.
+Qed.
+
+Lemma decl_gt_rank x y : decl_leb x y = false -> f_rank y <= f_rank x.
+Proof.
+  unfold decl_leb, decl_compare. destruct (N.compare (f_rank x) (f_rank y)) eqn:Hc; intros H.
+  - apply N.compare_eq in Hc. rewrite Hc. apply N.le_refl.
+  - discriminate H.
+  - apply N.compare_gt_iff in Hc. now apply N.lt_le_incl.
+Qed.
+
+Lemma sinsert_rank_sorted x l : rank_sorted l -> rank_sorted (sinsert x l).
+Proof.
+  unfold rank_sorted. induction l as [|y r IH]; intros Hs; cbn [sinsert].
+  - constructor; constructor.
+  - inversion Hs as [|? ? Hr Hall]; subst. destruct (decl_leb x y) eqn:Hle.
+    + constructor; [exact Hs|]. constructor; [now apply decl_leb_rank|].
+      apply decl_leb_rank in Hle. eapply Forall_impl; [|exact Hall]. intros a Ha. cbn in *. eapply N.le_trans; eassumption.
+    + constructor; [now apply IH|].
+      eapply Permutation_Forall; [apply Permutation_sym, sinsert_perm|].
+      constructor; [now apply decl_gt_rank|exact Hall].
+Qed.
+
+Lemma ssort_rank_sorted l : rank_sorted (ssort l).
+Proof. induction l as [|x r IH]; cbn [ssort]; [constructor|now apply sinsert_rank_sorted]. Qed.
+
+Lemma filter_strongly_sorted {A} (R : A -> A -> Prop) (p : A -> bool) l :
+  StronglySorted R l -> StronglySorted R (filter p l).
+Proof.
+  induction 1 as [|a l Hs IH Hall]; cbn [filter]; [constructor|].
+  destruct (p a); [|exact IH]. constructor; [exact IH|].
+  rewrite Forall_forall in *. intros x Hx. apply filter_In in Hx. now apply Hall.
+Qed.
+
+Lemma format_rank_sorted_lemma ds : rank_sorted (format_order ds).
+Proof. unfold format_order. apply filter_strongly_sorted. apply ssort_rank_sorted. Qed.
+
+Lemma format_preserves_token_sequence_lemma ds :
+  exists ds',
+    format_effect ds = concat (map f_toks ds')
+    /\ Permutation ds' (filter (fun d => negb (f_empty d)) ds)
+    /\ (forall r, r <> 2 -> r <> 3 ->
+                  filter (rank_is r) ds' = filter (rank_is r) (filter (fun d => negb (f_empty d)) ds))
+    /\ rank_sorted ds'.
+Proof.
+  exists (format_order ds). split; [reflexivity|]. split; [apply format_preserves_declarations_lemma|].
+  split; [intros r; apply format_keeps_block_order_lemma|apply format_rank_sorted_lemma].
 Qed.
